@@ -44,7 +44,7 @@ func (p *watPrinter) printExport() error {
 
 func (p *watPrinter) isInlineFuncExport(e *ast.ExportSpec) bool {
 	for _, fn := range p.m.Funcs {
-		if fn.Name == e.FuncIdx && fn.ExportName == e.Name {
+		if fn.ExportName != "" && fn.Name == e.FuncIdx && fn.ExportName == e.Name {
 			return true
 		}
 	}
